@@ -267,16 +267,17 @@ func C13(op Opts) *Out {
 			}
 			return
 		}
-		// valid word sequence (possibly re-spaced)
+		// valid word sequence, possibly re-spaced with white space only (strings.Fields found
+		// exactly the words): C13 accepts a word SEQUENCE "exactly when it has a legal length,
+		// only list words and a correct checksum", however its words are separated
+		_ = canonical
 		if err != nil {
-			if canonical {
-				o.Add(s, "EntropyFromMnemonic rejects a valid mnemonic: "+err.Error(), "reject-valid")
-			}
+			o.Add(s, "EntropyFromMnemonic rejects a valid word sequence: "+err.Error(), "reject-valid")
 		} else if !bytes.Equal(got, ent) {
 			o.Add(s, fmt.Sprintf("EntropyFromMnemonic=%x want %x", got, ent), "decode")
 		}
-		if canonical && (err2 != nil || err3 != nil) {
-			o.Add(s, fmt.Sprintf("valid mnemonic rejected: %v %v", err2, err3), "reject-valid")
+		if err2 != nil || err3 != nil {
+			o.Add(s, fmt.Sprintf("valid word sequence rejected: MnemonicToByteArray: %v, NewSeedWithErrorChecking: %v", err2, err3), "reject-valid")
 		}
 	}
 	for _, size := range []int{16, 20, 24, 28, 32} {
